@@ -4,8 +4,10 @@ Executable model of `pkg/matchers/dissect/{dissect,case}.go` and `pkg/slicepool/
 (as repaired by the two `fix:` commits for F16/F17: delimiters end at the next `%{`, and
 ignore-case folds ASCII letters byte-wise on both the pattern and the line).
 
-* `strings.Index` is a library call, modelled by its documented contract (`stringsIndex`,
-  = least index of an occurrence or -1).
+* `strings.Index` is a library call, written here as its documented contract (`stringsIndex`,
+  = least index of an occurrence or -1).  What Go really runs (go1.23 `stringslite.Index`:
+  switch arms, IndexByte-skip loop, Rabin–Karp fall-back) is mirrored in `Model/C12Go.lean`
+  (`goIndex`) and PROVED equal to this contract (`go_index_eq_contract` in `Props/C12.lean`).
 * `indexIgnoreCase` is mirrored branch by branch (four `switch` arms, two nested loops).
 * `CompileEx` is the loop `compileLoop` over `compileStep` (fuel = len(expr)+1, the expression strictly shrinks).
   The Go map `groupNames` is an association list in insertion order.
